@@ -10,6 +10,7 @@
 Require Import ZArith List Bool.
 Require Import BFL.Ops BFL.Density BFL.C01_Model.
 Require Import BFL.C12_Model BFL.C12_Proofs BFL.C12_Sym BFL.C12_ProofsSym BFL.C12_KFInst BFL.C12_ProofsKF.
+Require BFL.C08_Model BFL.C12_GPFInst.
 Import ListNotations.
 
 Section C12.
@@ -48,6 +49,7 @@ Notation SUKF := (sukf_step sigma_of sukf_pred_mean sukf_upd).
 Notation GL := (gl_likelihood st_px gl_dens).
 Notation BOOT := (boot_step st_px gl_dens lk_zero1 boot_wupd).
 Notation GPF := (gpf_step st_px gl_dens lk_zero1 gpf_sample gpf_wupd).
+Notation LIK := (lik_eval st_px gl_dens lk_zero1).
 
 (* ================= Kalman correction ================= *)
 (* measure / predictedMeasure / innovation / getNoiseCovarianceMatrix: any subset failing *)
@@ -56,10 +58,12 @@ Theorem C12_kf_identity (p : pattern) (mm : mmodel) (pred out : G) st :
   r_out (KF (inject p mm) pred out st) = pred /\ r_st (KF (inject p mm) pred out st) = mkKfSt None (kf_py st).
 Proof. exact (kf_identity _ _ _ _ _ _ _ kf_px kf_upd p mm pred out st). Qed.
 
-(* also when the sensor itself (no injected pattern) reports the failure *)
+(* also when the sensor itself (no injected pattern) reports the failure -- premise only at the
+   arguments of this very call (any value returned next to a false flag, e.g. an empty matrix, is covered) *)
 Theorem C12_kf_identity_any_model (mm : mmodel) (pred out : G) st :
-  (mm_measure mm = None \/ (forall x, mm_predicted mm x = None) \/
-   (forall a b, mm_innovation mm a b = None) \/ fst (mm_noisecov mm) = false) ->
+  (mm_measure mm = None \/ mm_predicted mm (kf_px pred) = None \/
+   (forall y yp, mm_measure mm = Some y -> mm_predicted mm (kf_px pred) = Some yp -> mm_innovation mm yp y = None) \/
+   fst (mm_noisecov mm) = false) ->
   r_out (KF mm pred out st) = pred /\ r_st (KF mm pred out st) = mkKfSt None (kf_py st).
 Proof. exact (kf_identity_model _ _ _ _ _ _ _ kf_px kf_upd mm pred out st). Qed.
 
@@ -82,8 +86,9 @@ Theorem C12_kf_likelihood_after_failure_reports_failure (p : pattern) (mm : mmod
 Proof. exact (kf_lik_after_failure_reports_failure _ _ _ _ _ _ _ _ kf_px kf_upd kf_lik p mm pred out st). Qed.
 
 Theorem C12_kf_likelihood_after_failure_reports_failure_any_model (mm : mmodel) (pred out : G) st :
-  (mm_measure mm = None \/ (forall x, mm_predicted mm x = None) \/
-   (forall a b, mm_innovation mm a b = None) \/ fst (mm_noisecov mm) = false) ->
+  (mm_measure mm = None \/ mm_predicted mm (kf_px pred) = None \/
+   (forall y yp, mm_measure mm = Some y -> mm_predicted mm (kf_px pred) = Some yp -> mm_innovation mm yp y = None) \/
+   fst (mm_noisecov mm) = false) ->
   kf_get_lik kf_lik (r_st (KF mm pred out st)) = None.
 Proof. exact (kf_lik_after_failure_reports_failure_model _ _ _ _ _ _ _ _ kf_px kf_upd kf_lik mm pred out st). Qed.
 
@@ -99,6 +104,17 @@ Theorem C12_ukf_identity (additive : bool) (p : pattern) (mm : mmodel) (pred out
   r_out (UKF additive (inject p mm) pred out st) = pred /\
   u_innov (r_st (UKF additive (inject p mm) pred out st)) = None.
 Proof. exact (ukf_identity _ _ _ _ _ _ _ _ sigma_of ut_moments pm_default pxy_empty pm_add_noise ukf_augment pm_mean ukf_upd additive p mm pred out st). Qed.
+
+Theorem C12_ukf_identity_any_model (additive : bool) (mm : mmodel) (pred out : G) st :
+  let input := if additive then pred else ukf_augment pred (snd (mm_noisecov mm)) in
+  let pm_of := fun yp => let pm := fst (ut_moments input yp) in
+                         if additive then pm_add_noise pm (snd (mm_noisecov mm)) else pm in
+  (mm_measure mm = None \/ mm_predicted mm (sigma_of input) = None \/
+   (forall y yp, mm_measure mm = Some y -> mm_predicted mm (sigma_of input) = Some yp ->
+                 mm_innovation mm (pm_mean (pm_of yp)) y = None)) ->
+  r_out (UKF additive mm pred out st) = pred /\
+  ukf_get_lik ukf_lik (r_st (UKF additive mm pred out st)) = None.
+Proof. exact (ukf_identity_model _ _ _ _ _ _ _ _ _ sigma_of ut_moments pm_default pxy_empty pm_add_noise ukf_augment pm_mean ukf_upd ukf_lik additive mm pred out st). Qed.
 
 (* the flag of getNoiseCovarianceMatrix is not consulted (the statement of C12 does not ask for it) *)
 Theorem C12_ukf_noisecov_flag_ignored (additive : bool) (p : pattern) (mm : mmodel) (pred out : G) st :
@@ -144,6 +160,14 @@ Theorem C12_sukf_identity (sub_ok : bool) ncalls (p : pattern) (mm : mmodel) (pr
   s_innov (r_st (SUKF sub_ok ncalls (inject p mm) pred out st)) = None.
 Proof. exact (sukf_identity _ _ _ _ _ _ sigma_of sukf_pred_mean sukf_upd sub_ok ncalls p mm pred out st). Qed.
 
+Theorem C12_sukf_identity_any_model (sub_ok : bool) ncalls lcalls (mm mm' : mmodel) (pred out : G) st :
+  (mm_measure mm = None \/ sub_ok = false \/ mm_predicted mm (sigma_of pred) = None \/
+   (forall y yp, mm_measure mm = Some y -> mm_predicted mm (sigma_of pred) = Some yp ->
+                 mm_innovation mm (sukf_pred_mean yp) y = None)) ->
+  r_out (SUKF sub_ok ncalls mm pred out st) = pred /\
+  sukf_get_lik sukf_lik lcalls mm' (r_st (SUKF sub_ok ncalls mm pred out st)) = (None, []).
+Proof. exact (sukf_identity_model _ _ _ _ _ _ _ sigma_of sukf_pred_mean sukf_upd sukf_lik sub_ok ncalls lcalls mm mm' pred out st). Qed.
+
 Theorem C12_sukf_noisecov_flag_ignored sub_ok ncalls (p : pattern) (mm : mmodel) (pred out : G) st :
   SUKF sub_ok ncalls (inject p mm) pred out st = SUKF sub_ok ncalls (inject (mask NoiseCov p) mm) pred out st.
 Proof. exact (sukf_noisecov_flag_ignored _ _ _ _ _ _ sigma_of sukf_pred_mean sukf_upd sub_ok ncalls p mm pred out st). Qed.
@@ -182,6 +206,13 @@ Theorem C12_likelihood_reports_failure (p : pattern) (mm : mmodel) (s : St) :
   fst (GL (inject p mm) s) = None /\ lik_pair lk_zero1 (fst (GL (inject p mm) s)) = (false, lk_zero1).
 Proof. exact (gl_reports_failure _ _ _ _ _ _ _ st_px gl_dens lk_zero1 p mm s). Qed.
 
+Theorem C12_likelihood_reports_failure_any_model (mm : mmodel) (s : St) :
+  (mm_measure mm = None \/ mm_predicted mm (st_px s) = None \/
+   (forall y yp, mm_measure mm = Some y -> mm_predicted mm (st_px s) = Some yp -> mm_innovation mm yp y = None) \/
+   fst (mm_noisecov mm) = false) ->
+  fst (GL mm s) = None.
+Proof. exact (gl_reports_failure_pointwise _ _ _ _ _ _ _ st_px gl_dens mm s). Qed.
+
 Theorem C12_likelihood_value_only_if_all_calls_succeed (p : pattern) (mm : mmodel) (s : St) lk :
   fst (GL (inject p mm) s) = Some lk -> fails_any p sites4 = false.
 Proof. exact (gl_value_only_if_all_ok _ _ _ _ _ _ _ st_px gl_dens lk_zero1 p mm s lk). Qed.
@@ -196,19 +227,31 @@ Proof. exact (gl_no_fault _ _ _ _ _ _ _ st_px gl_dens y h inn R s). Qed.
 
 (* ================= bootstrap correction ================= *)
 (* lm: the shipped Gaussian likelihood (fails with any of the four calls) or a
-   user-supplied model (fails with its own flag) *)
+   user-supplied model (its own flag, its own vector) *)
 Theorem C12_bootstrap_identity (lm : likmodel St LK) (p : pattern) (mm : mmodel) (pred out : pset G St) st :
   lik_fails _ _ lm p = true ->
-  r_out (BOOT (inject_lik p lm) (inject p mm) pred out st) = pred /\
-  pf_get_lik (r_st (BOOT (inject_lik p lm) (inject p mm) pred out st)) = (false, lk_zero1).
+  r_out (BOOT (inject_lik lk_zero1 p lm) (inject p mm) pred out st) = pred /\
+  pf_get_lik (r_st (BOOT (inject_lik lk_zero1 p lm) (inject p mm) pred out st)) = (false, lk_zero1).
 Proof. exact (boot_identity _ _ _ _ _ _ _ _ st_px gl_dens lk_zero1 boot_wupd lm p mm pred out st). Qed.
+
+(* any likelihood model and sensor: failure of the likelihood call at the predicted states *)
+Theorem C12_bootstrap_identity_any_model (lm : likmodel St LK) (mm : mmodel) (pred out : pset G St) st :
+  fst (fst (LIK lm mm (snd pred))) = false ->
+  r_out (BOOT lm mm pred out st) = pred /\
+  pf_get_lik (r_st (BOOT lm mm pred out st)) = fst (LIK lm mm (snd pred)).
+Proof. exact (boot_identity_model _ _ _ _ _ _ _ _ st_px gl_dens lk_zero1 boot_wupd lm mm pred out st). Qed.
+
+Theorem C12_bootstrap_identity_iff (lm : likmodel St LK) (mm : mmodel) (pred out : pset G St) st :
+  r_out (BOOT lm mm pred out st) = pred <->
+  (fst (fst (LIK lm mm (snd pred))) = false \/ boot_wupd (fst pred) (snd (fst (LIK lm mm (snd pred)))) = fst pred).
+Proof. exact (boot_identity_iff _ _ _ _ _ _ _ _ st_px gl_dens lk_zero1 boot_wupd lm mm pred out st). Qed.
 
 Theorem C12_bootstrap_likelihood_never_stale (lm : likmodel St LK) (mm : mmodel) (pred out : pset G St) st st' :
   r_st (BOOT lm mm pred out st) = r_st (BOOT lm mm pred out st').
 Proof. exact (boot_state_fresh _ _ _ _ _ _ _ _ st_px gl_dens lk_zero1 boot_wupd lm mm pred out st st'). Qed.
 
 Theorem C12_bootstrap_call_log (lm : likmodel St LK) (p : pattern) (y : Y) (h : X -> YP) (inn : YP -> Y -> NU) (R : RC) (pred out : pset G St) st :
-  r_log (BOOT (inject_lik p lm) (inject p (total_mm y h inn R)) pred out st) =
+  r_log (BOOT (inject_lik lk_zero1 p lm) (inject p (total_mm y h inn R)) pred out st) =
   match lm with LGauss => upto_first_failure p sites4 | LCustom _ => [Likelihood] end.
 Proof. exact (boot_log _ _ _ _ _ _ _ _ st_px gl_dens lk_zero1 boot_wupd lm p y h inn R pred out st). Qed.
 
@@ -224,29 +267,60 @@ Proof. exact (boot_no_fault_gauss _ _ _ _ _ _ _ _ st_px gl_dens lk_zero1 boot_wu
 Theorem C12_gpf_identity (gc : G -> G -> GS -> result G GS) (lm : likmodel St LK) (p : pattern) (mm : mmodel)
         (pred out : pset G St) st :
   lik_fails _ _ lm p = true ->
-  r_out (GPF gc (inject_lik p lm) (inject p mm) pred out st) = pred /\
-  pf_get_lik (g_pf (r_st (GPF gc (inject_lik p lm) (inject p mm) pred out st))) = (false, lk_zero1).
+  r_out (GPF gc (inject_lik lk_zero1 p lm) (inject p mm) pred out st) = pred /\
+  pf_get_lik (g_pf (r_st (GPF gc (inject_lik lk_zero1 p lm) (inject p mm) pred out st))) = (false, lk_zero1).
 Proof. exact (gpf_identity _ _ _ _ _ _ _ _ _ st_px gl_dens lk_zero1 _ gpf_sample gpf_wupd gc lm p mm pred out st). Qed.
 
+Theorem C12_gpf_identity_any_model (gc : G -> G -> GS -> result G GS) (lm : likmodel St LK) (mm : mmodel)
+        (pred out : pset G St) st :
+  let states := gpf_states _ _ _ _ _ gpf_sample gc pred out st in
+  fst (fst (LIK lm mm states)) = false ->
+  r_out (GPF gc lm mm pred out st) = pred /\
+  pf_get_lik (g_pf (r_st (GPF gc lm mm pred out st))) = fst (LIK lm mm states).
+Proof. exact (gpf_identity_model _ _ _ _ _ _ _ _ _ st_px gl_dens lk_zero1 _ gpf_sample gpf_wupd gc lm mm pred out st). Qed.
+
+(* POSITIVE characterisation, for every wrapped correction, likelihood model and sensor: the output is
+   the predicted set exactly when the likelihood fails (or the full update reproduces the predicted set) *)
+Theorem C12_gpf_identity_iff (gc : G -> G -> GS -> result G GS) (lm : likmodel St LK) (mm : mmodel)
+        (pred out : pset G St) st :
+  let states := gpf_states _ _ _ _ _ gpf_sample gc pred out st in
+  let vl := fst (LIK lm mm states) in
+  let corr := (r_out (gc (fst pred) (fst out) (g_inner st)), states) in
+  r_out (GPF gc lm mm pred out st) = pred <->
+  (fst vl = false \/ (gpf_wupd pred (snd vl) corr, states) = pred).
+Proof. exact (gpf_identity_iff _ _ _ _ _ _ _ _ _ st_px gl_dens lk_zero1 _ gpf_sample gpf_wupd gc lm mm pred out st). Qed.
+
 (* ... but the failed step has run the wrapped correction and consumed random numbers *)
-Theorem C12_gpf_failed_step_side_effects (gc : G -> G -> GS -> result G GS) (lm : likmodel St LK) (p : pattern) (mm : mmodel)
+Theorem C12_gpf_failed_step_side_effects (gc : G -> G -> GS -> result G GS) (lm : likmodel St LK) (mm : mmodel)
         (pred out : pset G St) st :
   let r := gc (fst pred) (fst out) (g_inner st) in
-  g_rng (r_st (GPF gc (inject_lik p lm) (inject p mm) pred out st)) = snd (gpf_sample (g_rng st) (r_out r) (snd out)) /\
-  g_inner (r_st (GPF gc (inject_lik p lm) (inject p mm) pred out st)) = r_st r.
-Proof. exact (gpf_failed_step_side_effects _ _ _ _ _ _ _ _ _ st_px gl_dens lk_zero1 _ gpf_sample gpf_wupd gc lm p mm pred out st). Qed.
+  g_rng (r_st (GPF gc lm mm pred out st)) = snd (gpf_sample (g_rng st) (r_out r) (snd out)) /\
+  g_inner (r_st (GPF gc lm mm pred out st)) = r_st r.
+Proof. exact (gpf_failed_step_side_effects _ _ _ _ _ _ _ _ _ st_px gl_dens lk_zero1 _ gpf_sample gpf_wupd gc lm mm pred out st). Qed.
 
-(* the wrapped correction could not use the measurement, the likelihood model reports a value:
-   the set is re-sampled around the predicted moments and re-weighted *)
-Theorem C12_gpf_inner_failure_not_detected (gc : G -> G -> GS -> result G GS) f (mm : mmodel) (pred out : pset G St) st lk :
+(* KNOWN FINDING, explicit premise: the wrapped correction could not use the measurement (it returned the
+   predicted mixture), the likelihood model reports a value: the set is re-sampled around the PREDICTED
+   moments and re-weighted -- exactly this and nothing else *)
+Theorem C12_gpf_inner_failure_not_detected (gc : G -> G -> GS -> result G GS) (lm : likmodel St LK) (mm : mmodel)
+        (pred out : pset G St) st lk :
   r_out (gc (fst pred) (fst out) (g_inner st)) = fst pred ->
   let states := fst (gpf_sample (g_rng st) (fst pred) (snd out)) in
-  f states = Some lk ->
-  r_out (GPF gc (LCustom f) mm pred out st) = (gpf_wupd pred lk (fst pred, states), states).
-Proof. exact (gpf_inner_failure_not_detected _ _ _ _ _ _ _ _ _ st_px gl_dens lk_zero1 _ gpf_sample gpf_wupd gc f mm pred out st lk). Qed.
+  fst (LIK lm mm states) = (true, lk) ->
+  r_out (GPF gc lm mm pred out st) = (gpf_wupd pred lk (fst pred, states), states).
+Proof. exact (gpf_inner_failure_not_detected _ _ _ _ _ _ _ _ _ st_px gl_dens lk_zero1 _ gpf_sample gpf_wupd gc lm mm pred out st lk). Qed.
+
+(* correct(p, p): one object as predicted and corrected set.  With an invalid likelihood and a wrapped
+   correction that returns its input, the object handed back carries re-drawn states *)
+Theorem C12_gpf_aliased_failure_redraws (gc : G -> G -> GS -> result G GS) (lm : likmodel St LK) (mm : mmodel)
+        (pred : pset G St) st :
+  r_out (gc (fst pred) (fst pred) (g_inner st)) = fst pred ->
+  let states := fst (gpf_sample (g_rng st) (fst pred) (snd pred)) in
+  fst (fst (LIK lm mm states)) = false ->
+  r_out (gpf_step_aliased st_px gl_dens lk_zero1 gpf_sample gpf_wupd gc lm mm pred st) = (fst pred, states).
+Proof. exact (gpf_aliased_failure_redraws _ _ _ _ _ _ _ _ _ st_px gl_dens lk_zero1 _ gpf_sample gpf_wupd gc lm mm pred st). Qed.
 
 Theorem C12_gpf_call_log (gc : G -> G -> GS -> result G GS) (lm : likmodel St LK) (p : pattern) (y : Y) (h : X -> YP) (inn : YP -> Y -> NU) (R : RC) (pred out : pset G St) st :
-  r_log (GPF gc (inject_lik p lm) (inject p (total_mm y h inn R)) pred out st) =
+  r_log (GPF gc (inject_lik lk_zero1 p lm) (inject p (total_mm y h inn R)) pred out st) =
   r_log (gc (fst pred) (fst out) (g_inner st)) ++
   match lm with LGauss => upto_first_failure p sites4 | LCustom _ => [Likelihood] end.
 Proof. exact (gpf_log _ _ _ _ _ _ _ _ _ st_px gl_dens lk_zero1 _ gpf_sample gpf_wupd gc lm p y h inn R pred out st). Qed.
@@ -282,6 +356,44 @@ Theorem C12_public_correct_runs_the_step (B S : Type) (step : B -> B -> S -> res
   correct_wrapper false step pred out st = step pred out st.
 Proof. exact (correct_wrapper_not_skipping step pred out st). Qed.
 
+(* skip_ set (on the driven correction, or on the correction wrapped by GPF): the predicted object is
+   returned, the members are untouched and NO call is made, whatever the fault pattern *)
+Theorem C12_skipped_correction_makes_no_call (B S : Type) (step : B -> B -> S -> result B S) pred out st :
+  correct_wrapper true step pred out st = mkRes pred st [].
+Proof. exact (correct_wrapper_skipping step pred out st). Qed.
+
+(* "no partial update of any component, mean, covariance or weight": with the belief given its
+   structure -- a list of (mean, covariance, weight) components plus the shape descriptors, and for the
+   particle classes the list of states -- equality of the whole object IS equality of every part *)
+Theorem C12_whole_object_is_componentwise (Mn Cv Wt Sh : Type) (a b : list (Mn * Cv * Wt) * Sh) :
+  a = b <->
+  (length (fst a) = length (fst b) /\ snd a = snd b /\
+   forall i d, fst (fst (nth i (fst a) d)) = fst (fst (nth i (fst b) d)) /\
+               snd (fst (nth i (fst a) d)) = snd (fst (nth i (fst b) d)) /\
+               snd (nth i (fst a) d) = snd (nth i (fst b) d)).
+Proof. exact (whole_object_is_componentwise Mn Cv Wt Sh a b). Qed.
+
+(* e.g. for the Kalman correction (the other classes: the same rewriting of their identity theorem) *)
+Theorem C12_kf_no_partial_update (Mn Cv Wt Sh Y X YP NU RC PY : Type)
+        (kf_px : list (Mn * Cv * Wt) * Sh -> X) kf_upd (p : pattern) (mm : mmodel Y X YP NU RC) pred out (st : kf_state NU PY) :
+  fails_any p sites4 = true ->
+  let o := r_out (kf_step kf_px kf_upd (inject p mm) pred out st) in
+  length (fst o) = length (fst pred) /\ snd o = snd pred /\
+  forall i d, fst (fst (nth i (fst o) d)) = fst (fst (nth i (fst pred) d)) /\
+              snd (fst (nth i (fst o) d)) = snd (fst (nth i (fst pred) d)) /\
+              snd (nth i (fst o) d) = snd (nth i (fst pred) d).
+Proof. exact (kf_no_partial_update Mn Cv Wt Sh Y X YP NU RC PY kf_px kf_upd p mm pred out st). Qed.
+
+Theorem C12_gpf_no_partial_update (Mn Cv Wt Sh Sx Y X YP NU RC LK RNG GS : Type)
+        st_px gl_dens (z : LK) gpf_sample gpf_wupd (gc : _ -> _ -> GS -> result _ GS) (lm : likmodel (list Sx) LK) (p : pattern)
+        (mm : mmodel Y X YP NU RC) (pred out : pset (list (Mn * Cv * Wt) * Sh) (list Sx)) (st : gpf_state LK RNG GS) :
+  lik_fails _ _ lm p = true ->
+  let o := r_out (gpf_step st_px gl_dens z gpf_sample gpf_wupd gc (inject_lik z p lm) (inject p mm) pred out st) in
+  length (fst (fst o)) = length (fst (fst pred)) /\ snd (fst o) = snd (fst pred) /\
+  (forall i d, nth i (fst (fst o)) d = nth i (fst (fst pred)) d) /\
+  length (snd o) = length (snd pred) /\ (forall i d, nth i (snd o) d = nth i (snd pred) d).
+Proof. exact (gpf_no_partial_update Mn Cv Wt Sh Sx Y X YP NU RC LK RNG GS st_px gl_dens z gpf_sample gpf_wupd gc lm p mm pred out st). Qed.
+
 (* ================= the fault model and the algebraic model are one definition ================= *)
 (* the KF skeleton, instantiated with C01's numerical routines over ANY MatOps instance, under no_fault,
    is C01's kf_correct (components, innovations, measurement covariances); the weights / shape part W of
@@ -304,6 +416,19 @@ Theorem C12_kf_numerical_instance_identity (O : MatOps) (n m : nat) (W : Type) (
   fails_any p sites4 = true -> r_out (c_kf_step H (inject p (lin_mm H R y)) pred out st) = pred.
 Proof. exact (kf_skeleton_fault_is_identity O n m W H R y p pred out st). Qed.
 
+(* the GPF skeleton, instantiated with C08's numerical routines over ANY MatOps instance (C12_GPFInst), is
+   C08's gpf_correct -- for every wrapped Gaussian step, every likelihood model whether it reports a value
+   or not, every transition density and every draw: particles, validity flag and likelihood vector *)
+Theorem C12_gpf_skeleton_is_C08 (O : MatOps) (n : nat) (gc : C08_Model.gstep O n)
+        (lik : list (M O n 1) -> bool * list (T (sc O)))
+        (trans : list (M O n 1) -> list (M O n 1) -> list (T (sc O))) (zs : list (M O n 1))
+        (pred corr_old : C08_Model.pset O n) :
+  let r := C12_GPFInst.i_gpf_step O n gc lik trans zs pred corr_old in
+  let c := C08_Model.gpf_correct gc lik trans zs pred corr_old in
+  fst (r_out r) = C08_Model.cr_particles c /\
+  pf_get_lik (g_pf (r_st r)) = (C08_Model.cr_valid c, C08_Model.cr_lik c).
+Proof. exact (C12_GPFInst.gpf_skeleton_is_C08 O n gc lik trans zs pred corr_old). Qed.
+
 (* ================= refuted on the faithful model (witnesses on the extracted instance) =================
    (the stale-likelihood refutations of the code before 201e1b4 live in C12_Regress.v) *)
 (* "every pattern with a failing call among those GPFCorrection (through the wrapped correction) consults
@@ -323,6 +448,15 @@ Theorem C12_gpf_transient_inner_failure_refuted :
     tm_eqb (o_g o) (leaf (IPredG 0)) = false /\ tm_eqb (o_s o) (leaf (IPredS 0)) = false /\
     o_log o = [Measure; Measure; Predicted; Innovation; NoiseCov] /\ fst (o_lik o) = true.
 Proof. exact gpf_transient_inner_failure_witness. Qed.
+
+(* correct(p, p) on GPFCorrection with measure() unavailable (KFCorrection + GaussianLikelihood): the
+   object is NOT what was passed in: its states are re-drawn (a precondition "pred and corr are distinct
+   objects" is needed; see the report) *)
+Theorem C12_gpf_aliased_refuted :
+  exists o, run_gpf_cfg (mkCfg false false false true) 0 true 0 false [bad Measure] = [o] /\
+    o_g o = leaf (IPredG 0) /\ tm_eqb (o_s o) (leaf (IPredS 0)) = false /\
+    o_s o = Node FSampleS [leaf IRng; leaf (IPredG 0); leaf (IPredS 0)] /\ o_lik o = (false, leaf FZero1).
+Proof. exact gpf_aliased_witness. Qed.
 
 (* ================= non-vacuity ================= *)
 (* all sixteen subsets of the four measurement-model calls, run on the extracted instance:
@@ -379,6 +513,7 @@ Print Assumptions C12_kf_likelihood_after_failure_reports_failure.
 Print Assumptions C12_kf_likelihood_after_failure_reports_failure_any_model.
 Print Assumptions C12_kf_likelihood_after_success.
 Print Assumptions C12_ukf_identity.
+Print Assumptions C12_ukf_identity_any_model.
 Print Assumptions C12_ukf_noisecov_flag_ignored.
 Print Assumptions C12_ukf_generic_call_log.
 Print Assumptions C12_ukf_additive_call_log.
@@ -386,6 +521,7 @@ Print Assumptions C12_no_fault_ukf.
 Print Assumptions C12_ukf_members_after_failed_prediction.
 Print Assumptions C12_ukf_likelihood_after_failure_reports_failure.
 Print Assumptions C12_sukf_identity.
+Print Assumptions C12_sukf_identity_any_model.
 Print Assumptions C12_sukf_noisecov_flag_ignored.
 Print Assumptions C12_sukf_call_log.
 Print Assumptions C12_sukf_size_mismatch_call_log.
@@ -393,23 +529,35 @@ Print Assumptions C12_no_fault_sukf.
 Print Assumptions C12_sukf_members_after_failed_innovation.
 Print Assumptions C12_sukf_likelihood_after_failure_reports_failure.
 Print Assumptions C12_likelihood_reports_failure.
+Print Assumptions C12_likelihood_reports_failure_any_model.
 Print Assumptions C12_likelihood_value_only_if_all_calls_succeed.
 Print Assumptions C12_likelihood_call_log.
 Print Assumptions C12_no_fault_likelihood.
 Print Assumptions C12_bootstrap_identity.
+Print Assumptions C12_bootstrap_identity_any_model.
+Print Assumptions C12_bootstrap_identity_iff.
 Print Assumptions C12_bootstrap_likelihood_never_stale.
 Print Assumptions C12_bootstrap_call_log.
 Print Assumptions C12_no_fault_bootstrap.
 Print Assumptions C12_gpf_identity.
+Print Assumptions C12_gpf_identity_any_model.
+Print Assumptions C12_gpf_identity_iff.
 Print Assumptions C12_gpf_failed_step_side_effects.
 Print Assumptions C12_gpf_inner_failure_not_detected.
+Print Assumptions C12_gpf_aliased_failure_redraws.
 Print Assumptions C12_gpf_call_log.
 Print Assumptions C12_no_fault_gpf.
 Print Assumptions C12_sis_skips_correction.
 Print Assumptions C12_no_fault_sis.
 Print Assumptions C12_public_correct_runs_the_step.
+Print Assumptions C12_skipped_correction_makes_no_call.
+Print Assumptions C12_whole_object_is_componentwise.
+Print Assumptions C12_kf_no_partial_update.
+Print Assumptions C12_gpf_no_partial_update.
 Print Assumptions C12_no_fault_kf_is_C01.
 Print Assumptions C12_no_fault_kf_likelihood_is_C01.
 Print Assumptions C12_kf_numerical_instance_identity.
+Print Assumptions C12_gpf_skeleton_is_C08.
 Print Assumptions C12_gpf_inner_failure_refuted.
 Print Assumptions C12_gpf_transient_inner_failure_refuted.
+Print Assumptions C12_gpf_aliased_refuted.
